@@ -3,6 +3,7 @@ package main
 import (
 	"encoding/json"
 	"fmt"
+	"os"
 	"path/filepath"
 	"sort"
 	"strconv"
@@ -205,8 +206,12 @@ func confirmAndMinimise(b builds, cfg tierCfg, viol *proto.Record) *proto.Record
 			chunk = (chunk + 1) / 2
 		}
 	}
+	dbg := os.Getenv("VERIF_DEBUG_MIN") != ""
 	for round := 0; round < 3 && !m.exhausted(); round++ {
 		t0, o0, e0 := countOps(cur)
+		if dbg {
+			logf("minimiser round %d: %d tasks / %d ops / %d events, prefix %d, %d candidates so far", round, t0, o0, e0, len(cur.Prefix), m.cands)
+		}
 		// 1. drop whole tasks (keep the slot, empty the ops: indices in events stay valid)
 		for t := len(cur.Run.Tasks) - 1; t >= 0 && !m.exhausted(); t-- {
 			if len(cur.Run.Tasks[t].Ops) == 0 {
